@@ -8,7 +8,7 @@ Four parts, each a TLC run of spec/C15_Options.tla bound to the real code:
   plan   (A)  the same machine with the sub-goal option's overrides + exact planning oracle; compared
               with PlanToSubgoalOption.sub_task (all components) and .planning_result (V, Q, initial).
   opt    (A)  TLC explores every history of an option run (all starts, step limits 0..4) and emits the
-              behaviour, what its end must be (return / raise / free) and its discounted return; the
+              behaviour, what its end must be (return / raise) and its discounted return; the
               driver replays each behaviour through Option.run_on with scripted sampling and through a
               one-simulation semi-MDP.
   trace  (B)  simulations recorded from SemiMarkovDecisionProcess queries on bigger random instances
@@ -19,9 +19,7 @@ Four parts, each a TLC run of spec/C15_Options.tla bound to the real code:
 All verdicts come from what TLC emitted; python only builds msdm objects, runs them and projects.
 """
 import math
-import os
 import random
-import sys
 import warnings
 from fractions import Fraction as F
 
@@ -44,16 +42,6 @@ INVS = {
 TMAX = {1: 20, 2: 12, 4: 8, 10: 6}          # step limits keeping GD^t * n * rewards inside 30 bits
 BADR = 1000003                              # stands for a reward that is not an integer
 MDPF = ("N", "K", "PD", "GN", "GD", "ID", "abs", "avail", "P", "R", "p0")
-
-
-def stable_hashing():
-    """The semi-MDP seeds its simulations with hash((state, option, seed)); string labels make that depend
-    on the interpreter's hash seed.  ./check exports PYTHONHASHSEED=0 but its own interpreter has already
-    started, so the run (and its replays) would not be reproducible: restart once with the exported value."""
-    if sys.flags.hash_randomization and os.environ.get("PYTHONHASHSEED") == "0" and not os.environ.get("C15_REEXEC"):
-        os.environ["C15_REEXEC"] = "1"
-        sys.stdout.flush()
-        os.execv(sys.executable, [sys.executable] + sys.argv)
 
 
 def cfg(mode):
@@ -373,12 +361,6 @@ def aug_real(b, tab, m, ovr):
 
 
 def discount_signature(site, rec, real):
-    """The as-built model predicts exactly one deviation, whatever the call site (augment() directly, the
-    sub-goal sub-task or its plan): the class-level discount instead of the instance's.  An observation
-    equal to that prediction gets the root cause's signature; any other discount mismatch its own."""
-    r = real.get("discount")
-    if rec["lossy"] and isinstance(r, float) and close(r, frac(rec["gclass"]), 1e-12):
-        return "C15:augment:discount_rate:instance-attribute-lost"
     return f"C15:{site}:discount_rate:not-preserved"
 
 
@@ -846,12 +828,6 @@ def opt_batch_record(c):
     return rec
 
 
-def end_signature(must, n, lim):
-    if must == "return":
-        return "raised-terminal-at-limit-minus-1" if n + 1 == lim else "raised-before-limit"
-    return "returned-at-limit-without-terminal"
-
-
 def judge_opt(ctx, cases, tamper=None):
     res = tlc(ctx, "opt", "opt", [opt_batch_record(c) for c in cases],
               "opt: every history of Option.run_on for all starts, step limits 0..4")
@@ -893,13 +869,13 @@ def judge_opt(ctx, cases, tamper=None):
                     what = (why, f"trajectory {real['ev']} end {real['fin']} expected {exp_ev} end {r['end']}")
         elif oc == "raised":
             if must == "return":
-                what = (end_signature(must, n, lim), f"raised although the terminal state {r['end'] - 1} was reached after {n} < {lim} steps")
+                what = ("raised-at-terminal", f"raised although the terminal state {r['end'] - 1} was reached after {n} <= {lim} steps")
             elif must == "raise" and real["left"] != [0, 0]:
                 what = ("raised-before-limit-nonterminal", f"raised with {real['left']} scripted samples left")
         if what:
             ctx.violation(f"C15:Option.run_on:{what[0]}", f"{desc}: {what[1]}", rc)
-        elif must == "free":
-            ctx.count(f"opt_free_zone_{oc}")
+        elif n == lim and must == "return":
+            ctx.count("opt_terminal_on_exactly_the_last_allowed_step")
         # one-simulation semi-MDP: outcome (end, steps, discounted return) with probability 1
         ok2 = True
         if oc == "returned" and what is None:
@@ -907,11 +883,8 @@ def judge_opt(ctx, cases, tamper=None):
             site = "SemiMarkovDecisionProcess.next_state_transit_time_reward_dist"
             cum = frac(r["cum"])
             if isinstance(sm, dict):
-                if "AlgorithmException" in sm["error"] and must == "free":
-                    ctx.count("opt_free_zone_raised")
-                else:
-                    ok2 = False
-                    ctx.violation(f"C15:{site}:raises", f"{desc}: {sm['error']}", rc)
+                ok2 = False
+                ctx.violation(f"C15:{site}:raises", f"{desc}: {sm['error']}", rc)
             elif not (len(sm) == 1 and sm[0][0] == r["end"] and sm[0][1] == n and close(sm[0][2], cum, 1e-12) and close(sm[0][3], 1, 1e-12)):
                 ok2 = False
                 clause = "scripted-outcome"
@@ -1123,8 +1096,8 @@ def trace_record(case, ob):
 
 RUN_REASONS = {"not-chained", "unknown-state-or-action", "continued-past-terminal", "stepped-beyond-limit",
                "action-outside-policy", "successor-outside-support", "reward-differs", "final-record-differs",
-               "returned-before-terminal", "returned-at-limit-without-terminal", "raised-terminal-at-limit-minus-1",
-               "raised-before-limit", "raised-before-limit-nonterminal"}
+               "returned-before-terminal", "returned-at-limit-without-terminal", "raised-at-terminal",
+               "raised-before-limit-nonterminal"}
 
 
 def match_outcomes(real, expected, arity, n):
@@ -1244,9 +1217,7 @@ def judge_trace(ctx, cases, tamper=None, reals=None):
         acts = ob["acts"]
         site = f"{SM}.actions"
         if "error" in acts:
-            shape = "include_mdp_actions-tuple-actions" if (c["inclprim"] and c["rep"]["actions_as"] == "tuple"
-                                                              and acts["error"].startswith("TypeError")) else "raises"
-            fail(site, shape, f"actions(state {ob['s0']}) raised {acts['error']} (include_mdp_actions={bool(c['inclprim'])}, "
+            fail(site, "raises", f"actions(state {ob['s0']}) raised {acts['error']} (include_mdp_actions={bool(c['inclprim'])}, "
                               f"mdp.actions returns a {c['rep']['actions_as']})")
         elif acts["prim"] != sorted(r["acts"]["prim"]) or acts["opts"] != sorted(r["acts"]["opts"]):
             fail(site, "wrong-action-set", f"actions(state {ob['s0']}) = {acts} expected {r['acts']}")
@@ -1269,18 +1240,20 @@ def judge_trace(ctx, cases, tamper=None, reals=None):
 # as-built model: TLC reproduces the two deviations of the pinned tree at the model level
 # ==============================================================================================
 def asbuilt_runs(ctx, aug_cases, opt_cases):
+    """MC-only demonstration: the model of msdm's two former deviations violates the invariants.  No verdict
+    about the real code depends on it."""
     info = {}
     lossy = [c for c in aug_cases if c["rep"]["kind"] in ("quick", "subclass_inst") and (c["m"]["GN"], c["m"]["GD"]) != (1, 1)][:2]
     if lossy:
         batch = [aug_prepare(dict(c, ovrs=[["absorbing"]]))[2] for c in lossy]
-        res = tlc(ctx, "aug_asbuilt", "aug", batch, "aug, as-built variant (discount from the class): expected counterexample", variant="asbuilt")
+        res = tlc(ctx, "aug_asbuilt", "aug", batch, "aug, former as-built variant (discount from the class), MC only: expected counterexample", variant="asbuilt")
         info["aug"] = sorted(set(res.violated))
     oc = [c for c in opt_cases if c["lim"] >= 1 and c["term"]][:6]
     if oc:
         res = tlc(ctx, "opt_asbuilt", "opt", [opt_batch_record(c) for c in oc],
-                  "opt, as-built variant (raise when len(trajectory) >= max_steps): expected counterexample", variant="asbuilt")
+                  "opt, former as-built variant (raise when len(trajectory) >= max_steps), MC only: expected counterexample", variant="asbuilt")
         info["opt"] = sorted(set(res.violated))
-    ctx.extra["asbuilt_model_violates"] = info
+    ctx.extra["former_asbuilt_model_violates"] = info
 
 
 # ==============================================================================================
@@ -1288,7 +1261,6 @@ SIZES = {"quick": dict(aug=20, plan=200, opt=150, trace=200), "thorough": dict(a
 
 
 def run(ctx):
-    stable_hashing()
     import msdm.algorithms      # noqa: F401  (slow import, once)
     sz = SIZES[ctx.tier]
     ctx.rule = ("aug: (base instance x representation x subset of the 7 overridable components), non-trivial = a proper "
@@ -1300,9 +1272,9 @@ def run(ctx):
         "TLC evaluates the TLA+ oracles correctly (cross-checked against python Fractions on a sample of every part)",
         "floats are compared with exact rationals at 1e-9 relative (values pass through augment() unchanged; tallies are k/n); "
         "planning values within eps/(1-gamma) resp. eps*max expected steps, eps = 1e-10",
-        "a run that reaches its terminal state in exactly max_steps steps may return or raise (free): both readings of "
-        "'raises at its step limit' are accepted",
-        "PYTHONHASHSEED is fixed by ./check, so obj_seed((s, option, seed)) is the same within and across runs"]
+        "a run that reaches a terminal state within max_steps primitive steps (including on exactly the max_steps-th) must "
+        "return; raising is required iff max_steps steps were taken and the last state is not terminal",
+        "./check runs with a fixed hash seed, so simulations seeded from (state, option, seed) are the same across runs"]
     rng = random.Random(ctx.seed * 104729 + 15)
     aug_cases = make_aug_cases(rng, sz["aug"], ctx.tier)
     plan_cases = make_plan_cases(rng, sz["plan"], ctx.tier)
@@ -1321,7 +1293,6 @@ def run(ctx):
 
 
 def replay(ctx, case):
-    stable_hashing()
     import msdm.algorithms      # noqa: F401
     part, c = case["part"], case["case"]
     {"aug": judge_aug, "plan": judge_plan, "opt": judge_opt, "trace": judge_trace}[part](ctx, [c])
@@ -1329,7 +1300,6 @@ def replay(ctx, case):
 
 def selftest(ctx):
     """Binding demonstration: corrupt values returned by the real code, fields handed to msdm, logged events."""
-    stable_hashing()
     import msdm.algorithms      # noqa: F401
     rng = random.Random(77)
     results = {}
